@@ -50,6 +50,11 @@ def make_case(ctx, i):
     files = TG.split_files(m, r, 1 + r.below(3))
     for f in files:
         f["path"] = f["path"][1:]
+    # every fifth project keeps its schema files in a directory whose name has a combining mark / non-Latin letters with marks (the `sources`
+    # of a map are JSON strings: such names must come out as well-formed JSON that resolves to the files)
+    schema_dir = ["schema", "schema", "sche\u0301ma", "schema", "\u0e2a\u0e04\u0e35\u0e21\u0e32"][i % 5]
+    for f in files:
+        f["path"] = [schema_dir] + f["path"][1:]
     # operations: a root file, optionally importing a fragment file which may import a third
     defs = c01.merged_defs(files)
     eg = EG.ExecGen(defs, r)
@@ -81,7 +86,7 @@ def make_case(ctx, i):
         if i % 4 == 0:
             anon["shorthand"] = True
         op_files.append({"path": ["ops", "anon.graphql"], "doc": {"defs": [anon]}})
-    config = {"schema": "./schema/*.graphql", "documents": ["./ops/*.graphql", "./ops/lib/*.graphql"], "extensions": {"nitrogql": {"generate": gen}}}
+    config = {"schema": "./%s/*.graphql" % schema_dir, "documents": ["./ops/*.graphql", "./ops/lib/*.graphql"], "extensions": {"nitrogql": {"generate": gen}}}
     if i % 3 == 1:
         # a plugin contributes a virtual schema file that sits between the schema files and the operation files in load order
         config["extensions"]["nitrogql"]["plugins"] = ["nitrogql:model-plugin"]
